@@ -4,7 +4,6 @@ namespace MythVerif.WsqTso
 open MythVerif.Wsq
 
 
-set_option maxHeartbeats 4000000 in
 theorem f_O_unlock (s s' : St) (rest : List Sto) : Inv s → s.bufO = .unlock :: rest →
     s' = applySto { s with bufO := rest } .unlock → Inv s' := by
   intro h hb hs
